@@ -33,6 +33,9 @@ pub enum Move {
     CancelTriple,
     /// resubmit unchanged
     Resubmit,
+    /// leave member `who` (0 = i, 1 = j) exactly as last submitted and move only the other member's d1[k] so that
+    /// the pair cancels under the last observed factors
+    CancelHold(usize),
 }
 
 #[derive(Clone, Debug, Serialize, Deserialize)]
@@ -265,6 +268,17 @@ fn execute(sc: &Scenario, st: &mut RunStats) -> Vec<Violation> {
             Move::Resubmit => {
                 st.fault("resubmit");
             },
+            Move::CancelHold(who) => {
+                let (held, moved) = if *who == 0 { (i, j) } else { (j, i) };
+                if held != moved {
+                    if state.d_off[held] == Scalar::ZERO {
+                        state.d_off[held] = crng.scalar_nz();
+                    } else {
+                        state.d_off[moved] = -(w_prev[held] * state.d_off[held]) * w_prev[moved].invert();
+                    }
+                    st.fault("adaptive_cancel_hold_one");
+                }
+            },
         }
         let (acc, w, resp) = match submit(&state, st) {
             Ok(x) => x,
@@ -393,6 +407,7 @@ impl Check for C08 {
                 2 => Move::Permute,
                 3 => Move::CancelTriple,
                 4 => Move::Resubmit,
+                5 | 6 => Move::CancelHold(rng.usize_below(2)),
                 _ => Move::CancelPair,
             })
             .collect();
@@ -474,7 +489,7 @@ impl Check for C08 {
 
     fn required_probes(&self, _tier: Tier) -> Vec<&'static str> {
         vec![
-            "adaptive_cancel_pair", "adaptive_touch_r1", "adaptive_touch_s1", "adaptive_permute", "adaptive_cancel_triple",
+            "adaptive_cancel_pair", "adaptive_touch_r1", "adaptive_touch_s1", "adaptive_permute", "adaptive_cancel_triple", "adaptive_cancel_hold_one",
             "resubmit", "ratio_checked_after_response_change", "members_beyond_chunk_limit", "batch_fills_exactly_one_chunk", "owner_mode_recover_and_verify", "every_member_submitted_twice",
         ]
     }
